@@ -122,10 +122,15 @@ Definition consume (c : client) (inbox : list msg) : client * list (msg * ep) :=
                                           | None => [(x, cl_ctl c')]
                                           end) sent)) inbox (c, []).
 
+(* Client.process_blob_message: from the BLOB connection only BLOB updates are taken; whatever else it
+   carries (until the server has processed "Only" it mirrors the control connection, possibly later) is
+   the control connection's business *)
+Definition taken_from_blob_connection (m : msg) : bool := str_eqb (mk m) (s2l "setBLOBVector").
+
 Definition drain_client (c : client) : client * list (msg * ep) :=
   if cl_net c then
     let (c1, o1) := consume (with_inboxes c [] []) (cl_in_ctl c) in
-    let (c2, o2) := consume c1 (cl_in_blob c) in (c2, o1 ++ o2)
+    let (c2, o2) := consume c1 (filter taken_from_blob_connection (cl_in_blob c)) in (c2, o1 ++ o2)
   else (c, []).
 
 Definition quiet (s : sys) : bool :=
